@@ -736,11 +736,24 @@ func (e *Enc) applyModSet(fr *Frame, m *ModSet, cs *callSite) {
 
 // cellArgEffects: locals whose address is handed to a non-inlined callee may be overwritten.
 func (e *Enc) cellArgEffects(fr *Frame, cs *callSite) {
+	// locals whose boxed address was stored in memory (varargs arrays of interfaces, fields of
+	// interface type): anything that can reach that memory may write them; type reachability
+	// cannot see through the interface, so they are havocked at every non-inlined call.
+	for _, p := range e.published {
+		e.store(fr.curState, Addr{Kind: ARef, Base: p.ref}, p.typ, e.fresh(p.typ, "published"))
+	}
+	boxed := false
 	var visit func(v Val)
 	visit = func(v Val) {
 		switch x := v.(type) {
 		case *PtrV:
 			switch x.A.Kind {
+			case ARef:
+				if boxed && x.Elem != nil {
+					// a heap pointer hidden in an interface argument: the static argument type
+					// does not reveal it to the type-reachability frame
+					e.store(fr.curState, x.A, x.Elem, e.fresh(x.Elem, "boxedptr"))
+				}
 			case ACell:
 				e.havocCell(fr.curState, x.A.Cell)
 			case AField, AElem, AGlobal:
@@ -760,7 +773,10 @@ func (e *Enc) cellArgEffects(fr *Frame, cs *callSite) {
 			}
 		case *IfaceV:
 			if x.Boxed != nil {
+				was := boxed
+				boxed = true
 				visit(x.Boxed)
+				boxed = was
 			}
 		case *StructV:
 			for _, f := range x.F {
